@@ -55,6 +55,26 @@ def divRne (n d : Nat) : Nat :=
 
 def decDigits (n : Nat) : Nat := (toString n).length
 
+/-- `floor(log2(num/den))` for `num, den > 0`: the estimate from the two bit lengths, corrected by comparison -/
+def e2Of (num den : Nat) : Int :=
+  let l : Int := (Nat.log2 num : Int) - (Nat.log2 den : Int)
+  let ge (k : Int) : Bool :=   -- num/den ≥ 2^k ?
+    if k ≥ 0 then num ≥ den * 2 ^ k.toNat else num * 2 ^ (-k).toNat ≥ den
+  if ge (l+1) then l+1 else if ge l then l else l-1
+
+/-- round `num/den` (binary exponent `e2`) to 53 bits, nearest-even, and pack; `none` = overflows to infinity -/
+def packF64 (num den : Nat) (e2 : Int) : Option Nat :=
+  if e2 < -1022 then
+    -- subnormal (or rounds up to the smallest normal): m = rne(x * 2^1074)
+    some (divRne (num * 2 ^ 1074) den)
+  else
+    let shift : Int := e2 - 52
+    let m := if shift ≥ 0 then divRne num (den * 2 ^ shift.toNat)
+             else divRne (num * 2 ^ (-shift).toNat) den
+    let (m, e2) := if m == 2 ^ 53 then (2 ^ 52, e2 + 1) else (m, e2)
+    if e2 > 1023 then none
+    else some ((e2 + 1023).toNat * 2 ^ 52 + (m - 2 ^ 52))
+
 /-- IEEE binary64 bits of `|mant * 10^e10|` rounded to nearest-even; `none` = overflows to
     infinity. -/
 def roundF64 (mant : Nat) (e10 : Int) : Option Nat :=
@@ -66,21 +86,7 @@ def roundF64 (mant : Nat) (e10 : Int) : Option Nat :=
     else
       let num := if e10 ≥ 0 then mant * 10 ^ e10.toNat else mant
       let den := if e10 ≥ 0 then 1 else 10 ^ (-e10).toNat
-      -- e2 = floor(log2(num/den))
-      let l : Int := (Nat.log2 num : Int) - (Nat.log2 den : Int)
-      let ge (k : Int) : Bool :=   -- num/den ≥ 2^k ?
-        if k ≥ 0 then num ≥ den * 2 ^ k.toNat else num * 2 ^ (-k).toNat ≥ den
-      let e2 : Int := if ge (l+1) then l+1 else if ge l then l else l-1
-      if e2 < -1022 then
-        -- subnormal (or rounds up to the smallest normal): m = rne(x * 2^1074)
-        some (divRne (num * 2 ^ 1074) den)
-      else
-        let shift : Int := e2 - 52
-        let m := if shift ≥ 0 then divRne num (den * 2 ^ shift.toNat)
-                 else divRne (num * 2 ^ (-shift).toNat) den
-        let (m, e2) := if m == 2 ^ 53 then (2 ^ 52, e2 + 1) else (m, e2)
-        if e2 > 1023 then none
-        else some ((e2 + 1023).toNat * 2 ^ 52 + (m - 2 ^ 52))
+      packF64 num den (e2Of num den)
 
 /-- bits including the sign -/
 def f64Bits (d : Dec) : Option Nat :=
